@@ -439,6 +439,96 @@ func genParseIntString(r *h.Rng, radix int) string {
 
 var parseIntFixed = []string{"", " ", "-", "+", "0", "-0", "+0", " -0", "-00", "-0x0", "0x", "0X", "0x0", "-0x", "0xg", "0x1F", "-0X1f", "  0x10  ", "010", "08", "0b11", "1e3", "12.9", "-12.9", "  42abc", "abc", "z", "Z", "zz", "9223372036854775807", "9223372036854775808", "-9223372036854775808", "-9223372036854775809", "18446744073709551616", "9007199254740993", "-9007199254740993", "0x8000000000000000", "0x8000000000000401", "0x7fffffffffffffff", "0xffffffffffffffff", "0x20000000000000180000", "123456789012345678901234567890", "1111111111111111111111111111111111111111111111111111111111111111", "Infinity", "-Infinity", "NaN", "\u180e12", "\u200b12", "12\u200b", "1_000", "\u0663", "--1", "+-1", "-+1", "- 1", "1 2", "0x-1", "0x+1", "00x10", "0 x10"}
 
+// numeric literal source texts (ES5 7.8.3 + B.1.1) and near misses
+func genLiteral(r *h.Rng, doubles []float64) string {
+	switch r.Intn(10) {
+	case 0:
+		return litFixed[r.Intn(len(litFixed))]
+	case 1, 2: // DecimalLiteral
+		s := strDecimal(r)
+		return strings.TrimLeft(s, "+-")
+	case 3: // formatted double
+		x := math.Abs(randDouble(r, doubles))
+		if math.IsInf(x, 0) || math.IsNaN(x) {
+			x = 2.5
+		}
+		p := -1
+		if r.Bool() {
+			p = r.Intn(22)
+		}
+		return strconv.FormatFloat(x, []byte{'e', 'f', 'g'}[r.Intn(3)], p, 64)
+	case 4: // hex
+		n := 1 + r.Intn(22)
+		var b strings.Builder
+		b.WriteString([]string{"0x", "0X"}[r.Intn(2)])
+		for i := 0; i < n; i++ {
+			b.WriteByte("0123456789abcdefABCDEF"[r.Intn(22)])
+		}
+		return b.String()
+	case 5: // legacy octal and 08/09 forms
+		n := 1 + r.Intn(24)
+		var b strings.Builder
+		b.WriteByte('0')
+		for i := 0; i < n; i++ {
+			if r.Intn(15) == 0 {
+				b.WriteByte("89"[r.Intn(2)])
+			} else {
+				b.WriteByte(byte('0' + r.Intn(8)))
+			}
+		}
+		return b.String()
+	case 6: // integers around 2^53 / 2^63 / 2^64
+		base := []uint64{1 << 53, 1<<63 - 1, 1 << 63, math.MaxUint64, 1 << 62, 9007199254740993}[r.Intn(6)]
+		return strconv.FormatUint(base+uint64(r.Intn(5))-2, 10)
+	default:
+		var base string
+		switch r.Intn(3) {
+		case 0:
+			base = litFixed[r.Intn(len(litFixed))]
+		case 1:
+			base = strings.TrimLeft(strDecimal(r), "+-")
+		default:
+			base = strconv.FormatUint(r.U64()>>uint(r.Intn(64)), []int{8, 10, 16}[r.Intn(3)])
+			if r.Bool() {
+				base = "0x" + base
+			}
+		}
+		return mutateLit(r, base)
+	}
+}
+
+const litAlphabet = "0123456789..eE+-xXabfABF_$ 78"
+
+func mutateLit(r *h.Rng, s string) string {
+	b := []byte(s)
+	switch r.Intn(4) {
+	case 0:
+		i := r.Intn(len(b) + 1)
+		b = append(b[:i], append([]byte{litAlphabet[r.Intn(len(litAlphabet))]}, b[i:]...)...)
+	case 1:
+		if len(b) > 0 {
+			i := r.Intn(len(b))
+			b = append(b[:i], b[i+1:]...)
+		}
+	case 2:
+		if len(b) > 0 {
+			b[r.Intn(len(b))] = litAlphabet[r.Intn(len(litAlphabet))]
+		}
+	default:
+		if len(b) > 0 {
+			i := r.Intn(len(b))
+			b = append(b[:i], append([]byte{b[i]}, b[i:]...)...)
+		}
+	}
+	return string(b)
+}
+
+var litFixed = []string{"0", "1", "00", "01", "07", "08", "09", "010", "017", "018", "0777", "00.5", "0.5", "0.", ".5", ".", "5.", "5.e3", "5.e", "1e3", "1E3", "1e+3", "1e-3", "1e", "1e+", "0e0", "0e", "0x", "0X", "0x0", "0x1F", "0X1f", "0xg", "0x1g", "0x1.8", "0x1p3", "0b11", "0o17", "1_000", "1a", "1$", "1_", "1 ", " 1", "1;", "1.5.5", "1..5", "1.e5", "1.5e5.5", "1e5e5", "0.0000001", "1e21", "1e-7", "1e400", "1e-400", "1.7976931348623159e308", "4.9e-324", "2.4703282292062327e-324", "2.4703282292062328e-324",
+	"9007199254740992", "9007199254740993", "9223372036854775807", "9223372036854775808", "18446744073709551615", "18446744073709551616", "123456789012345678901234567890",
+	"0x7fffffffffffffff", "0x8000000000000000", "0x8000000000000401", "0xffffffffffffffff", "0x10000000000000000", "0x20000000000000180000", "0x1fffffffffffff8", "0x3fffffffffffff0",
+	"0777777777777777777777", "01000000000000000000000", "01777777777777777777777", "02000000000000000000000", "0000000000000000000000000017",
+	"1+1", "0xe+5", "1e+5+5", "-1", "+1", "1-", "Infinity", "NaN", "1n", "1f", "1d", "1L", "0.1e", "0.e1", ".e1", "..1", "0..1", "012.5", "08.5", "09e1", "0e1x", "3in", "1\\u0061"}
+
 // ---------------------------------------------------------------- the request stream
 
 func genC06(c *h.Ctx) {
@@ -519,6 +609,28 @@ func genC06(c *h.Ctx) {
 			s += []string{"x", "abc", " 1", ".", "e", "e+", "_", "Infinity", "inf", "p1", "\u00e9"}[r.Intn(11)]
 		}
 		c.Add("pfloat "+h.BytesTok(s), "pfloat")
+	}
+	// numeric literals
+	for _, s := range litFixed {
+		c.Add("lit "+h.BytesTok(s), "lit:fixed")
+	}
+	for i := 0; i < c.N(9000, 800000); i++ {
+		c.Add("lit "+h.BytesTok(genLiteral(r, ds)), "lit")
+	}
+	// ToString of integer-kinded number Values
+	for _, n := range []int64{0, 1, -1, 10, 1 << 53, 1<<53 + 1, 1<<53 - 1, -(1<<53 + 1), 9007199254740993, math.MaxInt64, math.MinInt64, 1 << 62, 1000000000000000000, 999999999999999999, 123456789012345678} {
+		c.Add("istr "+strconv.FormatInt(n, 10), "istr")
+	}
+	for i := 0; i < c.N(1500, 100000); i++ {
+		n := int64(r.U64()) >> uint(r.Intn(64))
+		c.Add("istr "+strconv.FormatInt(n, 10), "istr")
+	}
+	// round trip Number(String(x)) = x
+	for _, x := range ds {
+		c.Add("rt "+x2(x), "rt:structured")
+	}
+	for i := 0; i < c.N(6000, 1000000); i++ {
+		c.Add("rt "+x2(randDouble(r, ds)), "rt:random")
 	}
 	for _, s := range parseIntFixed {
 		for _, a := range radixArgs {
